@@ -5,9 +5,22 @@
 #define EXEC_NO_MAIN
 #include "exec.cpp"
 #include <terminalpp/stdout_channel.hpp>
+#include <csignal>
+#include <cstdlib>
+
+// VERIF_SIGNALS=1: a handled signal (no-op handler, SA_RESTART) may arrive at any time.  A blocking write(2) that has
+// already transferred part of its data when the signal arrives returns the short count - delivering the rest is the
+// writer's job.  The parent fills the pipe, sends SIGUSR1 repeatedly and reads slowly.
+static void on_usr1(int) {}
 
 int main()
 {
+    if (std::getenv("VERIF_SIGNALS")) {
+        struct sigaction sa {};
+        sa.sa_handler = on_usr1;
+        sa.sa_flags = SA_RESTART;
+        sigaction(SIGUSR1, &sa, nullptr);
+    }
     std::string line;
     std::getline(std::cin, line);
     auto parts = split(line, ';');
